@@ -201,3 +201,21 @@ Definition exact_sign_dot_prod (a b : s2_Point) : Z := dsgn (pv_dot (pv_of_point
 Definition sign_dot_prod (a b : s2_Point) : Z :=
   let sign := s2_triageSignDotProd a b in
   if negb (sign =? 0) then sign else exact_sign_dot_prod a b.
+
+(** * Observable tuples for the correspondence files (one case per input tuple) *)
+Definition zlist_eqb : list Z -> list Z -> bool := list_eqb Z.eqb.
+Definition sign_stages (a b c : s2_Point) : list Z :=
+  [s2_triageSign a b c; s2_stableSign a b c; exact_det_sign a b c; exact_sign a b c;
+   expensive_sign a b c; robust_sign a b c; robust_sign_stage a b c].
+Definition sym_stages (a b c : s2_Point) : list Z :=
+  let xa := pv_of_point a in let xb := pv_of_point b in let xc := pv_of_point c in
+  [sym_perturbed_sign xa xb xc (pv_cross xb xc); sym_perturbed_branch xa xb xc (pv_cross xb xc)].
+Definition cd_stages (x a b : s2_Point) : list Z :=
+  [s2_triageCompareCosDistances x a b; s2_triageCompareSin2Distances x a b;
+   exact_compare_distances (pv_of_point x) (pv_of_point a) (pv_of_point b);
+   s2_symbolicCompareDistances x a b; compare_distances x a b; compare_distances_stage x a b].
+Definition cd1_stages (x y : s2_Point) (r : float) : list Z :=
+  [s2_triageCompareCosDistance x y r; s2_triageCompareSin2Distance x y r;
+   compare_distance x y r; compare_distance_stage x y r].
+Definition dot_stages (a b : s2_Point) : list Z :=
+  [s2_triageSignDotProd a b; exact_sign_dot_prod a b; sign_dot_prod a b].
